@@ -112,6 +112,28 @@ def main():
                     return run_c01.explain(seed, c["index"], n_args, opts, e["name"], e["sent"][pos], run["tracing"], got)
 
                 judge_entry(er, {"origin": f"g-aiken:{stream}:{seed}:{c['index']}", "source": c["src"], "entry": e["name"], "tracing": run["tracing"], "args": [e["args"][i] for i in e["sent"]][:8]}, tags, labeler)
+    # targeted shapes: every curryable builtin x constant positions x 2..4 repetitions (the passes that
+    # fire only on repetition of one (builtin, constant) pair are hardly reached by the random stream)
+    import opt_templates
+
+    tcases = opt_templates.cases(chk.seed, n_args, quick)
+    tjobs = A.jobs_for_generated(tcases, lambda c: [["silent-all"], ["verbose-all"]][c["index"] % 2], snapshots=True)
+    res = A.run(tjobs, timeout=600)
+    for c in tcases:
+        r = res.get(c.get("job"), {})
+        if "runs" not in r:
+            if "died" in r:
+                chk.violation("C02|compiler-died", {"source": c["src"], "observed": r})
+            else:
+                chk.inconc("no-runs")
+            continue
+        run = r["runs"][0]
+        if "rejected" in run:
+            chk.inconc("template-module-rejected")
+            continue
+        for e, er in zip(c["entries"], run["entries"]):
+            chk.count("template_entries")
+            judge_entry(er, {"origin": f"template:{c['labels'][e['name']]}", "source": c["src"], "entry": e["name"], "tracing": run["tracing"], "args": e["args"][:8]}, ["template"], lambda pos, c=c, e=e: "template:" + c["labels"][e["name"]].split("|")[0])
     hjobs, meta = A.jobs_for_harvested(lambda c: [["silent-all"], ["verbose-all"]][c["index"] % 2], snapshots=True, limit=None if not quick else 250)
     res = A.run(hjobs, timeout=600)
     for j in hjobs:
@@ -135,10 +157,10 @@ def main():
         "the typed-list lowering in `afterwards` is a required lowering, not an optimisation: programs using writeBits / BLS multi-scalar-mul are compared from that stage on",
     ]
     chk.finish(
-        rule="(before, after) program pairs for every optimiser pass, recorded by hook H1 while compiling G-aiken modules (default stream and the stream re-enabling recorded finding shapes) and the repository's harvested test modules; each pair evaluated on the entry's run-time argument tuples; disagreements_checked = adjacent pairs compared",
+        rule="(before, after) program pairs for every optimiser pass, recorded by hook H1 while compiling G-aiken modules (default stream and the stream re-enabling recorded finding shapes), the targeted template modules (every curryable builtin x constant argument positions x 2..4 repetitions x same/mixed constants, as builtin and as operator) and the repository's harvested test modules; each pair evaluated on the entry's run-time argument tuples; disagreements_checked = adjacent pairs compared",
         programs=programs,
         disagreements_checked=pairs_compared,
-        floor={"inline_counts_cross_checked": 1000},
+        floor={"inline_counts_cross_checked": 1000, "template_entries": 300},
         extra_coverage={"evaluations_note": "programs = optimiser runs whose snapshots were all evaluated"},
     )
 
